@@ -167,7 +167,7 @@ def den(c: dict, n: str) -> bool:
     if c['ns'] == 'any':
         return True
     if c['ns'] == 'other':
-        return n != '' and n != TNS
+        return n != '' and n != c.get('tns', TNS)
     return n in c['ns']
 
 
@@ -394,9 +394,111 @@ def end_to_end(ctx: Ctx, drv: Optional[Driver]) -> None:
                             break
 
 
+def cross_namespace(ctx: Ctx, drv: Optional[Driver]) -> None:
+    """Wildcards declared in schemas of DIFFERENT target namespaces (`##other` and `##targetNamespace` are
+    relative to the declaring schema): every ordered pair (one from each schema), all operations; end to end:
+    a type of urn:t extending / composing attribute groups of the imported namespace urn:a."""
+    import tempfile
+    import os
+    import xmlschema
+    TNS2 = 'urn:a'
+    for v11 in (False, True):
+        cls = xmlschema.XMLSchema11 if v11 else xmlschema.XMLSchema10
+        cs = [c for c in constraints(v11, False) if not c['nd']]
+        cs1 = [dict(c, tns=TNS) for c in cs]
+        cs2 = [dict(c, tns=TNS2) for c in cs]
+        d = tempfile.mkdtemp(prefix='c16-')
+        try:
+            def tok2(ns):
+                return {'': '##local', TNS2: '##targetNamespace'}.get(ns, ns)
+
+            def attrs2(c):
+                # the same intended set, spelled from inside the schema of urn:a
+                if c['notNs']:
+                    p = 'notNamespace="%s"' % ' '.join(tok2(n) for n in c['notNs'])
+                elif c['ns'] in ('any', 'other'):
+                    p = 'namespace="##%s"' % c['ns']
+                else:
+                    p = 'namespace="%s"' % ' '.join(tok2(n) for n in c['ns'])
+                if c['notQ']:
+                    pm = {'': '', TNS: 't:', 'urn:a': 'a:', 'urn:b': 'b:', 'urn:fresh': 'f:'}
+                    p += ' notQName="%s"' % ' '.join(pm[ns] + loc for ns, loc in c['notQ'])
+                return p
+            body2 = []
+            for j, c in enumerate(cs2):
+                body2.append(f'<xs:complexType name="W{j}"><xs:sequence><xs:any {attrs2(c)} processContents="skip"/></xs:sequence>'
+                             f'<xs:anyAttribute {attrs2(c)} processContents="skip"/></xs:complexType>')
+                body2.append(f'<xs:complexType name="A{j}"><xs:anyAttribute {attrs2(c)} processContents="skip"/></xs:complexType>')
+                body2.append(f'<xs:attributeGroup name="G{j}"><xs:anyAttribute {attrs2(c)} processContents="skip"/></xs:attributeGroup>')
+            with open(os.path.join(d, 'a.xsd'), 'w') as f:
+                f.write('<xs:schema xmlns:xs="http://www.w3.org/2001/XMLSchema" targetNamespace="urn:a" xmlns:a="urn:a" '
+                        'xmlns:t="urn:t" xmlns:b="urn:b" xmlns:f="urn:fresh">\n' + '\n'.join(body2) + '</xs:schema>')
+            body1 = ['<xs:import namespace="urn:a" schemaLocation="a.xsd"/>']
+            for i, c in enumerate(cs1):
+                body1.append(f'<xs:complexType name="W{i}"><xs:sequence><xs:any {xsd_attrs(c)} processContents="skip"/></xs:sequence>'
+                             f'<xs:anyAttribute {xsd_attrs(c)} processContents="skip"/></xs:complexType>')
+            pairs = [(i, j) for i in range(len(cs1)) for j in range(len(cs2))
+                     if 'other' in (cs1[i]['ns'], cs2[j]['ns']) or TNS in (cs1[i]['ns'] if isinstance(cs1[i]['ns'], list) else [])
+                     or (i * 7 + j) % 5 == 0]
+            e2e = ctx.rng.sample(pairs, min(len(pairs), ctx.pick(120, 600)))
+            for i, j in e2e:
+                body1.append(f'<xs:complexType name="D{i}_{j}"><xs:complexContent><xs:extension base="a:A{j}">'
+                             f'<xs:anyAttribute {xsd_attrs(cs1[i])} processContents="skip"/></xs:extension>'
+                             f'</xs:complexContent></xs:complexType><xs:element name="d{i}_{j}" type="t:D{i}_{j}"/>')
+                body1.append(f'<xs:complexType name="I{i}_{j}"><xs:attributeGroup ref="a:G{j}"/>'
+                             f'<xs:anyAttribute {xsd_attrs(cs1[i])} processContents="skip"/></xs:complexType>'
+                             f'<xs:element name="i{i}_{j}" type="t:I{i}_{j}"/>')
+            with open(os.path.join(d, 'main.xsd'), 'w') as f:
+                f.write(HEAD + '\n'.join(body1) + '</xs:schema>')
+            schema = cls(os.path.join(d, 'main.xsd'), validation='lax')
+            s2 = [x for x in schema.maps.iter_schemas() if x.target_namespace == TNS2][0]
+            reqs: list = []
+            pend: list = []
+            for kind in ('element', 'attribute'):
+                for i, j in pairs:
+                    t1, t2 = schema.types[f'W{i}'], s2.types[f'W{j}']
+                    w1 = t1.content[0] if kind == 'element' else t1.attributes[None]
+                    w2 = t2.content[0] if kind == 'element' else t2.attributes[None]
+                    pair_case(ctx, v11, kind + '/cross-namespace', i, j, cs1[i], cs2[j], w1, w2, 'skip', 'skip', reqs, pend)
+                    pair_case(ctx, v11, kind + '/cross-namespace', j, i, cs2[j], cs1[i], w2, w1, 'skip', 'skip', reqs, pend)
+            if drv is not None:
+                compare(ctx, reqs, pend, drv)
+            # end to end
+            prefixes = {'': None, TNS: 't', 'urn:a': 'a', 'urn:b': 'b', 'urn:fresh': 'f'}
+            for i, j in e2e:
+                ca, cb = cs1[i], cs2[j]
+                case = {'v': '1.1' if v11 else '1.0', 'kind': 'end-to-end/cross-namespace', 'own (urn:t)': ca,
+                        'base/group (urn:a)': cb}
+                ctx.case(case, True, tag=f"{case['v']}/end-to-end-cross")
+                for nm, op in (('d', 'union'), ('i', 'intersection')):
+                    ty = schema.types[f'{nm.upper()}{i}_{j}']
+                    w = ty.attributes.get(None)
+                    if w is None or ty.errors:
+                        continue
+                    for k in NOXSI:
+                        n = UNIVERSE[k]
+                        a_, b_ = den(ca, n), den(cb, n)
+                        want = (a_ or b_) if op == 'union' else (a_ and b_)
+                        for loc in ('x',):
+                            want_q = ((den_q(ca, (n, loc)) or den_q(cb, (n, loc))) if op == 'union'
+                                      else (den_q(ca, (n, loc)) and den_q(cb, (n, loc))))
+                            attr = f'{loc}="1"' if n == '' else f'{prefixes[n]}:{loc}="1"'
+                            xml = (f'<t:{nm}{i}_{j} xmlns:t="urn:t" xmlns:a="urn:a" xmlns:b="urn:b" '
+                                   f'xmlns:f="urn:fresh" {attr}/>')
+                            got = schema.is_valid(xml)
+                            if got != want_q:
+                                ctx.failure(f'{op} across target namespaces: instance attribute admitted/refused '
+                                            'against the set reading', case, {'xml': xml, 'valid': got, 'expected': want_q})
+                                break
+        finally:
+            import shutil
+            shutil.rmtree(d, ignore_errors=True)
+
+
 def run(ctx: Ctx, driver_ok: bool) -> None:
     drv = Driver('drv_c16') if driver_ok else None
     unit_level(ctx, drv)
+    cross_namespace(ctx, drv)
     end_to_end(ctx, drv)
     ctx.extra['exhaustive'] = True
     ctx.extra['universe'] = UNIVERSE
@@ -411,6 +513,7 @@ def search(ctx: Ctx) -> None:
         ctx.tier = 'thorough'
         try:
             unit_level(ctx, None)
+            cross_namespace(ctx, None)
             end_to_end(ctx, None)
         finally:
             ctx.tier = saved
